@@ -1,4 +1,4 @@
-use bytes::Bytes;
+use bytes::{Bytes, BytesMut};
 use core::pin::Pin;
 use core::task::{Context, Poll};
 use futures_util::{ready, stream::Stream, StreamExt};
@@ -47,7 +47,16 @@ impl HttpRangeRequest {
             format!("bytes={}-{}", offset, end_offset),
         );
         let response = request.send().await?;
-        Ok(response.bytes().await?)
+        // Take no more than what was asked for, whatever the server chooses to send.
+        let mut body = BytesMut::new();
+        let mut stream = response.bytes_stream();
+        while let Some(item) = stream.next().await {
+            body.extend_from_slice(&item?);
+            if body.len() as u64 >= size {
+                break;
+            }
+        }
+        Ok(body.freeze())
     }
 
     pub async fn single(mut self) -> Result<Bytes, HttpReaderError> {
